@@ -4,8 +4,21 @@
    (conn_read / conn_run: `leave`); the quit handler then removes the agent.
 *)
 From Coq Require Import ZArith NArith List Bool Arith.
-From NSG Require Import Base.Prelude Model.Defender Model.Coord Proofs.CoordBase Proofs.CoordInv Proofs.CoordInvConn Proofs.CoordInvDispatch Proofs.CoordInvHandler Proofs.CoordProps Proofs.CoordDirect Proofs.CoordInv2 Proofs.CoordAgentStep Proofs.CoordBarrier.
+From NSG Require Import Base.Prelude Model.Defender Model.Coord Proofs.CoordBase Proofs.CoordInv Proofs.CoordInvConn Proofs.CoordInvDispatch Proofs.CoordInvHandler Proofs.CoordProps Proofs.CoordDirect Proofs.CoordInv2 Proofs.CoordAgentStep Proofs.CoordBarrier Proofs.CoordMeasure Proofs.CoordIsolation.
 Import ListNotations.
+
+(* every label except the two background tasks leaves the records of all agents but (at most) one exactly as they are: a departure, a fault or a bad message of one agent never touches another agent's view, counters, status, reward or trajectory *)
+Theorem C10_others :
+  forall (V W G : Type) (wstep : W -> V -> G -> W * V) (wreset : W -> W) (winit : W -> role -> W * V)
+         (goal : role -> V -> bool) (detect : list G -> G -> bool) (cfg : config) 
+         (s s' : @state V W G) (l : @label G),
+       @exec V W G wstep wreset winit goal detect cfg s l = @Some (@state V W G) s' ->
+       l <> @LRun G TRewards ->
+       l <> @LRun G TReset ->
+       exists c0 : addr,
+         forall c : addr,
+         c <> c0 -> @alookup (@agent V G) c (@agents V W G s') = @alookup (@agent V G) c (@agents V W G s).
+Proof. exact (@label_touches_one). Qed.
 
 (* after the quit handler the address is in no per-agent table; every other agent's record (view, steps, status, reward, trajectory) is exactly as before; world and files unchanged *)
 Theorem C10_forget :
@@ -111,6 +124,7 @@ Example C10_nonvacuous :
   end.
 Proof. vm_compute. repeat split; reflexivity. Qed.
 
+Print Assumptions C10_others.
 Print Assumptions C10_forget.
 Print Assumptions C10_slot.
 Print Assumptions C10_count.
